@@ -83,6 +83,9 @@ def run(tier, out, model_ok, proof):
         g = dict(g)
         g["id"] = "g_" + g["id"]
         cases.append(g)
+    # odd paths: empty, '.', '..' and brace segments in every position, three document shapes
+    for name, doc in stress.path_shapes(3 if big else 2) + ([] if big else [x for x in stress.path_shapes(3) if x[0].startswith("m")]):
+        cases.append(treecorr.single_file_case("ps_" + name, doc.encode()))
     # big inputs: time must stay proportional
     big_doc = b"JSIGHT 0.3\n" + b"".join(b"GET /p%d\n  200 any\n" % i for i in range(3000 if big else 800))
     cases.append(treecorr.single_file_case("big1", big_doc))
@@ -152,7 +155,7 @@ def run(tier, out, model_ok, proof):
     out.coverage.update({
         "evaluations": len(cases),
         "distinct_nontrivial": len(set(json.dumps(c["files"], sort_keys=True) for c in cases)),
-        "rule": "every formerly crashing input, a missing and an empty root file through kit.NewJapi, random bytes, directive-like documents, mutated corpus files, random directive sequences, arbitrary MACRO/PASTE graphs (chains into cycles, any declaration order), perturbed structured documents as files and include trees, include graphs with cycles/missing files/directories, three large inputs, and dependency-shaped projects (chains of 10..40 user types in both orders, allOf/array/macro/include chains, rings, fan-outs, deep JSON; Fibonacci, or- and dense DAGs of types) each in a worker of its own with a 40 s limit; each is built by kit.NewJApiFromFile in a worker whose death is attributed to the case; outcome must be catalog or error; wall time per case is recorded",
+        "rule": "every formerly crashing input, a missing and an empty root file through kit.NewJapi, random bytes, directive-like documents, mutated corpus files, random directive sequences, arbitrary MACRO/PASTE graphs (chains into cycles, any declaration order), perturbed structured documents as files and include trees, include graphs with cycles/missing files/directories, every path of up to three segments over {'', '.', '..', 'a', '{id}', '{}', ...} as method path / URL path / JSON-RPC URL, three large inputs, and dependency-shaped projects (chains of 10..40 user types in both orders, allOf/array/macro/include chains, rings, fan-outs, deep JSON; Fibonacci, or- and dense DAGs of types) each in a worker of its own with a 40 s limit; each is built by kit.NewJApiFromFile in a worker whose death is attributed to the case; outcome must be catalog or error; wall time per case is recorded",
         "samples": [{n: bytes.fromhex(h).decode("latin1")[:100] for n, h in c["files"].items()} for c in cases[14:17]],
         "outcomes": kinds,
         "dependency_shaped_projects": stress_rows,
